@@ -50,7 +50,8 @@ class C06(Prop):
             kind = rng.choice(["accrue", "accrue", "query", "same", "earlier", "rebal"])
             cuts.append([kind, p])
         return dict(cash=cash, rate=fr(rate), markup=fr(markup), length=length, cuts=cuts,
-                    margin_held=rng.random() < 0.3, zero_trip=rng.random() < 0.12)
+                    margin_held=rng.random() < 0.3, zero_trip=rng.random() < 0.12,
+                    tz_mode=rng.choice([None, None, None, None, "utc", "mixed", "mixed"]))
 
     def build(self, case, direct: bool):
         t0 = bs.T0
@@ -81,7 +82,7 @@ class C06(Prop):
                         ops.append(["accrue", t, 1])
         ops.append(["accrue", t0 + case["length"], 1])
         return dict(contracts=[dict(key="FUT", kind="user", mult="10", cashReq="0", mr="1/4")],
-                    fees=["0", "0", case["markup"]], deposit=case["cash"], ops=ops)
+                    fees=["0", "0", case["markup"]], deposit=case["cash"], ops=ops, tz_mode=case.get("tz_mode"))
 
     def run_zero_trip(self, case):
         """The cash balance is driven to *exactly* zero by a fee-free purchase, stays there over an accrual (or a
@@ -109,7 +110,8 @@ class C06(Prop):
         t_zero_end = t
         # as `Broker.rebalance` does: accrue first (on the zero balance), then trade
         ops += [["accrue", t, 1], ["tradeq", "SPOT", "-100", t], ["accrue", t + seg, 1]]
-        main = dict(contracts=[dict(key="SPOT", kind="ETF")], fees=["0", "0", case["markup"]], deposit="20000", ops=ops)
+        main = dict(contracts=[dict(key="SPOT", kind="ETF")], fees=["0", "0", case["markup"]], deposit="20000", ops=ops,
+                    tz_mode=case.get("tz_mode"))
         r, s = bs.run_case(main, {"accrue", "rebal", "tradeq", "pos"})
         r.tags.add("zero-cash-period")
         rate, markup = float(Fraction(case["rate"])), float(Fraction(case["markup"]))
